@@ -51,7 +51,8 @@ class LifecycleScenario(Scenario):
         self.grid = params.get('grid')
 
     def delays(self, env: Env, req: Request) -> bool:
-        return False
+        # the answer to a keep-alive PATCH may be slow (the record is stored at once, the operator learns of it later)
+        return bool(self.params.get('slow_keepalive')) and req.method == 'patch' and '/clusterkopfpeerings/' in req.path
 
     def allow_time_deviation(self, env: Env) -> bool:
         return bool(self.params.get('time_dev'))
@@ -303,12 +304,22 @@ def scenarios(tier: str) -> tuple[list[LifecycleScenario], list[LifecycleScenari
     return scripted_, searched
 
 
+def keepalive_scenarios() -> list[LifecycleScenario]:
+    """The stop / cancellation / failure comes while the answer to a keep-alive PATCH (the first one, a later one) is still on its way: the
+    record is on the server already - and is withdrawn all the same when the operator goes."""
+    out = []
+    for trig, at in itertools.product(('stop', 'cancel', 'break:kopfexamples'), (0.0, 0.5, 50.0)):
+        out.append(LifecycleScenario(startup=[['ok']], daemon=None, user=[(at, trig)] + ([(at, 'create-b')] if trig.startswith('break') else []),
+                                     horizon=at + 45.0, slow_keepalive=True))
+    return out
+
+
 def run(tier: str, seed: int) -> CheckResult:
     scripted_, searched = scenarios(tier)
     if tier == 'quick':
-        groups = [('scripted-triggers-and-failures', scripted_, 0, 60.0), ('trigger-anywhere', searched, 1, 60.0)]
+        groups = [('scripted-triggers-and-failures', scripted_, 0, 60.0), ('trigger-anywhere', searched, 1, 60.0), ('keepalive-answer-in-flight', keepalive_scenarios(), 1, 30.0)]
     else:
-        groups = [('scripted-triggers-and-failures', scripted_, 1, 600.0), ('trigger-anywhere', searched, 2, 900.0)]
+        groups = [('scripted-triggers-and-failures', scripted_, 1, 600.0), ('trigger-anywhere', searched, 2, 900.0), ('keepalive-answer-in-flight', keepalive_scenarios(), 2, 300.0)]
     stats, viols, info, nscen = run_groups(groups, seed=seed)
     return CheckResult(
         prop='C20', tier=tier, seed=seed, stats=stats, violations=viols, scenarios=nscen,
